@@ -10,6 +10,10 @@ use std::path::Path;
 use vcore::obs::ChildOutcome;
 
 pub const STACK_BYTES: u64 = 8 * 1024 * 1024;
+thread_local! {
+    /// Stack limit for children started from this thread, when measuring how much stack a call needs.
+    pub static STACK_OVERRIDE: std::cell::Cell<Option<u64>> = const { std::cell::Cell::new(None) };
+}
 /// exit code of the child for "the harness was called wrongly" (never a verdict)
 pub const EXIT_HARNESS: i32 = 64;
 
@@ -142,7 +146,7 @@ pub fn run_case_limits(
     if nofuel {
         args.push("nofuel".into());
     }
-    let o = vcore::obs::run_child(exe, &args, Some(input), Some(STACK_BYTES), as_bytes, Some(cpu_limit_s), wall_s)?;
+    let o = vcore::obs::run_child(exe, &args, Some(input), Some(STACK_OVERRIDE.with(|s| s.get()).unwrap_or(STACK_BYTES)), as_bytes, Some(cpu_limit_s), wall_s)?;
     let c = classify(&o);
     Ok((o, c))
 }
